@@ -84,10 +84,10 @@ Proof.
     exists nt, ps. split; [reflexivity|].
     destruct t as [ts|].
     + destruct (set_parent_ids g ts ps) as [ts'|e] eqn:E; [|discriminate].
-      injection H as <- <- <-. cbn. repeat split; try reflexivity.
+      cbn [tag_step] in H. injection H as <- <- <-. cbn. repeat split; try reflexivity.
       * exists ts'. split; reflexivity.
       * eexists. split; [reflexivity|]. split; reflexivity.
-    + injection H as <- <- <-. cbn. repeat split; try reflexivity.
+    + cbn [tag_step] in H. injection H as <- <- <-. cbn. repeat split; try reflexivity.
       eexists. split; [reflexivity|]. split; reflexivity.
   - destruct (match m with Some mb => negb (opt_eqb (tip b) (tip mb)) | None => false end) eqn:OOD;
       [discriminate|].
@@ -102,10 +102,12 @@ Proof.
       cbn. split; [reflexivity|]. split; [reflexivity|]. apply negb_false_iff in OOD. exact OOD. }
     destruct t as [ts|].
     + destruct (set_parent_ids g ts ps) as [ts'|e] eqn:E; [|discriminate].
+      destruct (tag_step m keep _) as [u|e]; [|discriminate].
       injection H as <- <- <-. cbn. repeat split; try reflexivity.
       * exists ts'. split; reflexivity.
       * destruct m as [mb|]; [|reflexivity]. apply (M (fun mb => if keep then tagd mb else _)).
-    + injection H as <- <- <-. cbn. repeat split; try reflexivity.
+    + destruct (tag_step m keep _) as [u|e]; [|discriminate].
+      injection H as <- <- <-. cbn. repeat split; try reflexivity.
       destruct m as [mb|]; [|reflexivity]. apply (M (fun mb => if keep then tagd mb else _)).
 Qed.
 
@@ -151,7 +153,7 @@ Proof.
   injection E as <-. rewrite T in Hx. subst nt.
   unfold plan in P. cbn [option_map] in P.
   destruct (walk g (lefthand_opt g (tip b)) (revno b) k (tl (tparents ts))) as [[nt pm]|e]; [|discriminate].
-  injection P as -> <-. cbn [opt_list app] in S. unfold set_parent_ids in S.
+  injection P as -> <-. unfold set_parent_ids in S. rewrite Hx in S. cbn [opt_list app] in S.
   destruct (ghost g x); [discriminate|]. injection S as <-. reflexivity.
 Qed.
 
@@ -197,12 +199,12 @@ Proof. reflexivity. Qed.
 
 (* ---- the new revno is right ---------------------------------------------------------- *)
 
-Theorem new_tip_revno g b t m k keep loc b' t' m' x : wf_dag g = true ->
+Theorem new_tip_revno g b t m k keep loc b' t' m' : wf_dag g = true ->
   distance_opt g (tip b) = Some (revno b) -> k <= revno b ->
   uncommit g b t m k keep loc = Ok (b', t', m') ->
   distance_opt g (tip b') = Some (revno b').
 Proof.
-  intros W C L H. clear x.
+  intros W C L H.
   apply uncommit_ok in H as [nt [ps [P [T [R _]]]]]. rewrite T, R. clear T R.
   destruct (tip b) as [o|] eqn:Ho.
   - cbn [distance_opt] in C. apply (distance_length g o _ W) in C as [C1 C2].
@@ -229,91 +231,132 @@ Proof.
   apply andb_true_iff in H as [H1 H2]. rewrite H1, IH; [reflexivity | exact H2].
 Qed.
 
-Section Roundtrip.
-Variable g : dag.
-Hypothesis W : wf_dag g = true.
-Hypothesis F : fresh_next g = true.
-Variable ps : list revid.       (* the tree's parents: tip first, then pending merges *)
-Hypothesis V : forallb (fun p => (p <? length g) || (S (length g) <=? p)) ps = true.
+Lemma filter_parents_heads g1 g2 l : heads g1 l = heads g2 l -> filter_parents g1 l = filter_parents g2 l.
+Proof. intros H. unfold filter_parents. destruct l as [|p rest]; [reflexivity|]. rewrite H. reflexivity. Qed.
 
-Let N := length g.
-Let g' := g ++ [ps].
+Definition valid_parents (g : dag) (ps : list revid) : bool :=
+  forallb (fun p => (p <? length g) || (S (length g) <=? p)) ps.
 
-Lemma ps_not_new : forall p, In p ps -> p <> N.
+Lemma ps_not_new g ps : valid_parents g ps = true -> forall p, In p ps -> p <> length g.
 Proof.
-  intros p Hp. rewrite forallb_forall in V. specialize (V p Hp).
-  apply orb_true_iff in V as [A|A]; [apply Nat.ltb_lt in A | apply Nat.leb_le in A]; unfold N; lia.
+  intros V p Hp. unfold valid_parents in V. rewrite forallb_forall in V. specialize (V p Hp).
+  apply orb_true_iff in V as [A|A]; [apply Nat.ltb_lt in A | apply Nat.leb_le in A]; lia.
 Qed.
 
-Lemma wf_g' : wf_dag g' = true.
-Proof. apply wf_extend; assumption. Qed.
-
-Lemma only_new_is_unique r : In r (find_unique_ancestors g' N ps) -> r = N.
+Lemma only_new_is_unique g ps r : wf_dag (g ++ [ps]) = true ->
+  In r (find_unique_ancestors (g ++ [ps]) (length g) ps) -> r = length g.
 Proof.
-  intros H. apply (find_unique_ancestors_spec g' N ps r wf_g') in H as [R X].
+  intros W' H. apply (find_unique_ancestors_spec _ _ _ r W') in H as [R X].
   inversion R as [|a p r' Hp Hap]; subst; [reflexivity|].
-  unfold g', N in Hp. rewrite parents_new in Hp. exfalso. apply (X p Hp Hap).
+  rewrite parents_new in Hp. exfalso. apply (X p Hp Hap).
 Qed.
 
-Lemma tags_survive tags : forallb (fun nr => negb (snd nr =? N)) tags = true ->
-  remove_tags g' tags (Some N) ps = tags.
+Lemma tags_survive g ps tags : wf_dag (g ++ [ps]) = true ->
+  forallb (fun nr => negb (snd nr =? length g)) tags = true ->
+  remove_tags (g ++ [ps]) tags (Some (length g)) ps = tags.
 Proof.
-  intros T. unfold remove_tags. apply filter_all. rewrite forallb_forall in *.
+  intros W' T. unfold remove_tags. apply filter_all. rewrite forallb_forall in T. apply forallb_forall.
   intros nr Hnr. specialize (T nr Hnr). apply negb_true_iff in T. apply Nat.eqb_neq in T.
   apply negb_true_iff. unfold removed_tag. apply memb_false. intros H.
-  apply T. apply only_new_is_unique. exact H.
+  apply T. apply (only_new_is_unique g ps _ W' H).
 Qed.
 
-Lemma filter_parents_extend : filter_parents g' ps = filter_parents g ps.
+Lemma walk_after_commit g ps n : wf_dag g = true -> fresh_next g = true ->
+  valid_parents g ps = true ->
+  match ps with p :: _ => p < length g | [] => True end ->
+  walk (g ++ [ps]) (lefthand (g ++ [ps]) (length g)) (S n) n (@nil nat) = Ok (hd_error ps, rev (tl ps)).
 Proof.
-  unfold filter_parents. destruct ps as [|p rest] eqn:E; [reflexivity|].
-  rewrite <- E. unfold g'. rewrite (heads_extend g ps ps W); [reflexivity | | exact F | exact ps_not_new].
-  apply wf_g'.
+  intros W F V Hp.
+  assert (W' : wf_dag (g ++ [ps]) = true) by (apply wf_extend; assumption).
+  assert (LN : length g < length (g ++ [ps])) by (rewrite app_length; cbn; lia).
+  assert (GN : ghost (g ++ [ps]) (length g) = false).
+  { unfold ghost, present. apply negb_false_iff. apply Nat.ltb_lt. exact LN. }
+  assert (NE : (S n =? n) = false) by (apply Nat.eqb_neq; lia).
+  rewrite (lefthand_unfold _ _ W' LN), parents_new.
+  cbn [walk]. rewrite GN, NE. unfold merged at 1. rewrite parents_new. cbn [app].
+  replace (S n - 1) with n by lia.
+  destruct ps as [|t0 more]; [reflexivity|].
+  assert (T0 : t0 <> length g) by lia.
+  rewrite (lefthand_extend g (t0 :: more) t0 W F T0).
+  destruct (lefthand_head g t0) as [l HL]. rewrite HL. cbn [walk].
+  assert (G0 : ghost (g ++ [t0 :: more]) t0 = false).
+  { unfold ghost, present. apply negb_false_iff. apply Nat.ltb_lt. lia. }
+  rewrite G0, Nat.eqb_refl. reflexivity.
 Qed.
 
-Theorem uncommit_commit_id tipb n tags files keep :
-  opt_list tipb = firstn 1 ps ->                         (* the tree is up to date with the branch *)
-  match tipb with Some x => x < length g | None => True end ->
-  filter_parents g ps = ps ->                            (* as left by set_parent_ids *)
-  forallb (fun nr => negb (snd nr =? N)) tags = true ->  (* no tag on the not yet existing revision *)
+Lemma parents_back (ps : list revid) : opt_list (hd_error ps) ++ rev (rev (tl ps)) = ps.
+Proof. rewrite rev_involutive. destruct ps; reflexivity. Qed.
+
+Lemma set_parent_ids_ok g ts ps :
+  match ps with p :: _ => ghost g p = false | [] => True end ->
+  set_parent_ids g ts ps = Ok (mkT (filter_parents g ps) (tfiles ts)).
+Proof. intros H. unfold set_parent_ids. destruct ps as [|p l]; [reflexivity|]. rewrite H. reflexivity. Qed.
+
+Theorem uncommit_commit_id g ps tipb n tags files keep :
+  wf_dag g = true -> fresh_next g = true -> valid_parents g ps = true ->
+  tipb = hd_error ps ->                                   (* the tree is up to date with the branch *)
+  match ps with p :: _ => p < length g | [] => True end -> (* ... whose tip is a present revision *)
+  filter_parents g ps = ps ->                             (* as left by set_parent_ids *)
+  forallb (fun nr => negb (snd nr =? length g)) tags = true -> (* no tag on the not yet existing revision *)
   let b := mkS tipb n tags in
   let t := mkT ps files in
   uncommit (commit_graph g t) (commit_branch g b) (Some (commit_tree g t)) None n keep false
   = Ok (b, Some t, None).
 Proof.
-  intros Hup Hpres Hfp Htags b t.
+  intros W F V Hup Hpres Hfp Htags b t.
+  assert (W' : wf_dag (g ++ [ps]) = true) by (apply wf_extend; assumption).
   unfold commit_graph, commit_branch, commit_tree, b, t. cbn [tparents tfiles tip revno tagd].
-  fold N. fold g'.
-  assert (LN : N < length g') by (unfold g', N; rewrite app_length; cbn; lia).
-  assert (GN : ghost g' N = false).
-  { unfold ghost, present. apply negb_false_iff. apply Nat.ltb_lt. exact LN. }
-  assert (NE : (S n =? n) = false) by (apply Nat.eqb_neq; lia).
   unfold uncommit. cbn [negb option_map tparents tip revno tagd].
   unfold plan. cbn [tip revno lefthand_opt tl].
-  rewrite (lefthand_unfold g' N wf_g' LN).
-  assert (PN : parents g' N = ps) by (unfold g', N; apply parents_new).
-  rewrite PN.
-  destruct ps as [|t0 more] eqn:E.
-  - (* first commit: the tree had no parents *)
-    cbn in Hup. destruct tipb; [discriminate|].
-    cbn [walk]. rewrite GN, NE. cbn [walk]. unfold merged. rewrite PN.
-    cbn [tl rev app opt_list set_parent_ids tfiles].
-    rewrite <- E. rewrite (tags_survive tags Htags). destruct keep; reflexivity.
-  - cbn in Hup. destruct tipb as [x|]; [|discriminate]. injection Hup as ->.
-    assert (T0 : t0 <> N) by (apply ps_not_new; rewrite E; left; reflexivity).
-    rewrite <- E in *.
-    unfold g' at 1. rewrite (lefthand_extend g ps t0 W F T0).
-    destruct (lefthand_head g t0) as [l HL]. rewrite HL.
-    cbn [walk]. rewrite GN, NE.
-    assert (G0 : ghost g' t0 = false).
-    { unfold ghost, present. apply negb_false_iff. apply Nat.ltb_lt. unfold N in LN. lia. }
-    rewrite G0. replace (S n - 1) with n by lia. rewrite Nat.eqb_refl.
-    unfold merged. rewrite PN.
-    assert (PS : opt_list (Some t0) ++ rev ([] ++ rev (tl ps)) = ps).
-    { cbn [app opt_list]. rewrite rev_involutive. rewrite E. reflexivity. }
-    rewrite PS. unfold set_parent_ids. rewrite E at 1. rewrite G0.
-    rewrite filter_parents_extend, Hfp. cbn [tfiles].
-    rewrite (tags_survive tags Htags). destruct keep; reflexivity.
+  rewrite (walk_after_commit g ps n W F V Hpres).
+  rewrite parents_back.
+  rewrite set_parent_ids_ok.
+  - cbn [tfiles].
+    rewrite (filter_parents_heads (g ++ [ps]) g ps (heads_extend g ps ps W W' F (ps_not_new g ps V))), Hfp.
+    rewrite (tags_survive g ps tags W' Htags). subst tipb. destruct keep; reflexivity.
+  - destruct ps as [|p l]; [exact I|]. unfold ghost, present. apply negb_false_iff. apply Nat.ltb_lt.
+    rewrite app_length. cbn. lia.
 Qed.
 
-End Roundtrip.
+(* ---- bound branches and tags: the clause that fails ------------------------------------ *)
+
+Lemma filter_none_all {A} (f : A -> bool) (l : list A) :
+  filter f l = [] -> filter (fun x => negb (f x)) l = l.
+Proof.
+  induction l as [|x l IH]; cbn; intros H; [reflexivity|].
+  destruct (f x); [discriminate|]. cbn. rewrite IH; [reflexivity | exact H].
+Qed.
+
+(* on a bound branch (not local) uncommit never drops a tag: it succeeds only
+   when there was no tag to drop *)
+Theorem bound_ok_no_tag_removed g b t mb k b' t' m' :
+  uncommit g b t (Some mb) k false false = Ok (b', t', m') -> tagd b' = tagd b.
+Proof.
+  unfold uncommit. intros H.
+  destruct (negb (opt_eqb (tip b) (tip mb))); [discriminate|].
+  destruct (plan g b (option_map tparents t) k) as [[nt ps]|e]; [|discriminate].
+  assert (X : tag_step (Some mb) false
+                (map fst (filter (fun nr => removed_tag g (tip b) ps nr) (tagd b))) = Ok tt ->
+              remove_tags g (tagd b) (tip b) ps = tagd b).
+  { unfold tag_step. cbn [negb andb].
+    destruct (map fst (filter (fun nr => removed_tag g (tip b) ps nr) (tagd b))) as [|a l] eqn:E;
+      [|discriminate].
+    intros _. apply map_eq_nil in E. unfold remove_tags. apply filter_none_all. exact E. }
+  destruct t as [ts|].
+  - destruct (set_parent_ids g ts ps) as [ts'|e]; [|discriminate].
+    destruct (tag_step (Some mb) false _) as [[]|e] eqn:TS; [|discriminate].
+    injection H as <- _ _. cbn. apply X. reflexivity.
+  - destruct (tag_step (Some mb) false _) as [[]|e] eqn:TS; [|discriminate].
+    injection H as <- _ _. cbn. apply X. reflexivity.
+Qed.
+
+(* witness: a bound branch in step with its master, one tag on the tip *)
+Theorem bound_tags_refuted :
+  exists g b ts mb,
+    wf_dag g = true /\ opt_eqb (tip b) (tip mb) = true /\
+    uncommit g b (Some ts) None 1 false false = Ok (mkS (Some 0) 1 [], Some (mkT [0] []), None) /\
+    uncommit g b (Some ts) (Some mb) 1 false false = Err LockContention.
+Proof.
+  exists [[]; [0]], (mkS (Some 1) 2 [(0, 1)]), (mkT [1] []), (mkS (Some 1) 2 [(0, 1)]).
+  repeat split; reflexivity.
+Qed.
